@@ -56,6 +56,8 @@ def main():
                 print(c, "thorough ->", rct, lines[:4])
     finally:
         sh("git -C /repo checkout -- .")
+        # evidence written while /repo was patched is not evidence about the tree: restore the committed files
+        sh(f"git -C {VERIF} checkout -- evidence")
     meta["checks"] = res
     meta["ran"].append("git -C /repo apply patch.diff; tools/check.py <id> --tier quick [thorough if quick passed]; git -C /repo checkout -- .")
     json.dump(meta, open(os.path.join(dst, "meta.json"), "w"), indent=1)
